@@ -574,6 +574,7 @@ def suite_under_monitor(ctx):
     for k, v in res["events"].items():
         ctx.count("suite:" + k, v)
     ctx.extra["suite_summary"] = res["summary"]
+    ctx.extra["suite_failed_tests"] = res.get("failed_tests")
     for f in res["firings"]:
         if f["property"] != "C16":
             continue
